@@ -189,6 +189,73 @@ def rule_m(F):
     return res
 
 
+def rule_i(F):
+    """C11.I: inserting an owned value builds what the owned value says. In Vm::insert_value (and its helpers) every result
+    of the String case is the object returned by `init_string` on that very string, and every Integer / Real result is built
+    from the payload. A shortcut that hands back an object found through a 32-bit hash of the text (a Handle-keyed cache)
+    merges different strings whose hashes collide ("costarring" / "liquid"): the inserted value is no longer deeply equal
+    to the saved one."""
+    res = []
+    fns = [f for f in F.fns if f.hir and not f.is_closure and f.short.startswith("vm::Vm::insert_value")]
+    if not fns:
+        raise AnchorMissing("Vm::insert_value")
+    n = 0
+
+    def leaves(e):
+        """value-producing leaf expressions of e"""
+        e = hu.strip_all(e)
+        if e is None:
+            return []
+        k = e.get("k")
+        if k == "block":
+            return leaves(e["block"].get("expr")) if e["block"].get("expr") is not None else []
+        if k == "match":
+            if (e.get("source") or "").startswith("TryDesugar"):
+                return [e]
+            out = []
+            for a in e["arms"]:
+                out += leaves(a["body"])
+            return out
+        if k == "if":
+            return leaves(e["then"]) + (leaves(e["else"]) if e.get("else") is not None else [])
+        return [e]
+    for f in fns:
+        inits = hu.let_inits(f)
+        for m in hir_walk(f.hir["body"]):
+            if m.get("k") != "match" or m.get("exp"):
+                continue
+            for a in m["arms"]:
+                kinds = [v[0].rsplit("::", 1)[-1] for v in pat_variants(a["pat"]) if "OwnedValue" in v[0]]
+                if kinds != ["String"]:
+                    continue
+                sbind = [i for i, _n in pat_bindings(a["pat"])]
+                n += 1
+                key = "C11/I/%s/string-is-allocated-from-its-text" % f.name
+                badleaf = None
+                for lf in leaves(a["body"]):
+                    good = False
+                    if lf.get("k") == "call" and any(n_.endswith("Value::Object") for n_ in hir_callee(lf)) and lf.get("args"):
+                        for z in hir_walk(lf["args"][0]):
+                            lid = hir_local_id(z) if z.get("k") == "path" else None
+                            for init in inits.get(lid, []) if lid is not None else []:
+                                for w in hir_walk(init):
+                                    if w.get("k") == "mcall" and w["name"] == "init_string" and \
+                                            any(hir_local_id(q) in sbind for q in hir_walk(w["args"][0]) if q.get("k") == "path"):
+                                        good = True
+                    if not good:
+                        badleaf = lf
+                if badleaf is None:
+                    res.append(ok("C11.I", key, f.loc(a.get("ln")), "every result of the String case is Value::Object(init_string(s))"))
+                else:
+                    res.append(bad("C11.I", key, f.loc(badleaf.get("ln")),
+                                   "%s can answer the String case with an object that was not allocated from this string's text (a cached or "
+                                   "looked-up object): a cache keyed by a 32-bit hash of the text hands the first of two colliding strings "
+                                   "back for the second, so the inserted value is not deeply equal to the one that was saved" % f.name))
+    if n < 1:
+        raise AnchorMissing("String case of Vm::insert_value")
+    return res
+
+
 def rule_v(F):
     """C11.V: converting a runtime value to its owned form fails only for values that cannot be saved. If the conversion
     carries a set of tables 'being converted' to refuse self-containing tables, that set must be scoped to the current path:
@@ -254,6 +321,7 @@ def rule_v(F):
 
 RULES = [
     Rule("C11.S", rule_s, 30, "derived Serialize impls write every field (Card.id excepted)", configs=("default", "release")),
+    Rule("C11.I", rule_i, 1, "insert_value allocates every string from its own text", configs=("default", "release")),
     Rule("C11.V", rule_v, 1, "the conversion to the owned form refuses only what cannot be saved (visited sets are path-scoped)", configs=("default", "release")),
     Rule("C11.M", rule_m, 4, "hand-written map impls are symmetric", configs=("default", "release")),
     Rule("C11.K", shared(_c13.rule_k, "C13.K", "C11.K"), 2, "decoded HandleTables keep a free slot (shared with C13.K)", configs=("default", "release")),
